@@ -339,11 +339,14 @@ Definition sk_extracted_datetime : list ev :=
 
 Definition sk_seeker_run : list ev :=
   [Call "tfld";
+   Rd "line_date";
    IfB;
    RaiseE "NoValidLinesFoundInFile";
    Else;
    IfE;
+   Rd "line_date";
    IfB;
+   Rd "line_date";
    IfB;
    Ret;
    Else;
@@ -367,17 +370,24 @@ Definition sk_seeker_run : list ev :=
 
 Definition sk_seeker_getitem : list ev :=
   [Call "tfld";
+   Rd "line_date";
    IfB;
    Call "tfld";
    Else;
    IfE;
+   Rd "line_date";
    IfB;
    RaiseE "TooManyLinesWithoutDate";
    Else;
    IfE;
+   Rd "line_date";
    IfB;
    Else;
    IfE;
+   Rd "line_date";
+   Rd "line_date";
+   Rd "line_date";
+   Rd "line_date";
    Ret].
 
 Definition sk_find_token : list ev :=
@@ -485,3 +495,87 @@ Definition sk_stats_update : list ev :=
    Rd "stat_slot";
    Wr "stat_slot";
    LoopE].
+
+Definition sk_apply_global : list ev :=
+  [IfB;
+   Ret;
+   Else;
+   IfE;
+   IfB;
+   Ret;
+   Else;
+   IfE;
+   LoopB;
+   Call "apply_to_file";
+   IfB;
+   Ret;
+   Else;
+   IfE;
+   LoopE;
+   Ret].
+
+Definition sk_apply_single : list ev :=
+  [IfB;
+   Ret;
+   Else;
+   IfE;
+   LoopB;
+   TryB;
+   Call "apply_to_line";
+   IfB;
+   Continue;
+   Else;
+   IfE;
+   Handler "CouldNotApplyConstraint";
+   Continue;
+   TryE;
+   Ret;
+   LoopE;
+   Ret].
+
+Definition sk_apply_to_line : list ev :=
+  [IfB;
+   RaiseE "CouldNotApplyConstraint";
+   Else;
+   IfE;
+   Call "extracted_datetime";
+   IfB;
+   RaiseE "CouldNotApplyConstraint";
+   Else;
+   IfE;
+   IfB;
+   Ret;
+   Else;
+   IfE;
+   Ret].
+
+Definition sk_try_find_line : list ev :=
+  [IfB;
+   Call "find_token";
+   Else;
+   IfE;
+   IfB;
+   Call "find_token_reverse";
+   Else;
+   IfE;
+   Ret].
+
+Definition sk_tfld : list ev :=
+  [LoopB;
+   Call "try_find_line";
+   Rd "line_date";
+   IfB;
+   Ret;
+   Else;
+   IfE;
+   IfB;
+   Break;
+   Else;
+   IfE;
+   LoopE;
+   Ret].
+
+Definition sk_logline_date : list ev :=
+  [Call "read_line";
+   Call "extracted_datetime";
+   Ret].
